@@ -5,7 +5,7 @@
 set -e
 cd "$(dirname "$0")"
 export CARGO_NET_OFFLINE=true
-./check build chk rel asan
+./check build chk rel abt asan
 # Miri: build the interpreter's copy of the harness (the trailing command is a no-op that exits 2)
 (cd harness && MIRIFLAGS="-Zmiri-disable-isolation" cargo +nightly miri run --offline --target-dir target/miri -- list-nothing >/dev/null 2>&1 || true)
 echo "setup done"
